@@ -363,7 +363,9 @@ func (s *ProofStructure) CommitmentsFromSecrets(g *gabikeys.PublicKey, m, mRando
 
 	bases := zkproof.NewBaseMerge(g, commit)
 
-	var contributions []*big.Int
+	// The C_i are chosen by the prover and are bases of the relations below: they are part of
+	// what the challenge has to be bound to.
+	contributions := append([]*big.Int{}, commit.c...)
 	contributions = s.mCorrect.CommitmentsFromSecrets(g, contributions, &bases, commit)
 	for i := range commit.d {
 		contributions = s.cRep[i].CommitmentsFromSecrets(g, contributions, &bases, commit)
@@ -443,7 +445,7 @@ func (s *ProofStructure) VerifyProofStructure(g *gabikeys.PublicKey, p *Proof) b
 func (s *ProofStructure) CommitmentsFromProof(g *gabikeys.PublicKey, p *Proof, challenge *big.Int) []*big.Int {
 	bases := zkproof.NewBaseMerge(g, (*proof)(p))
 
-	var contributions []*big.Int
+	contributions := append([]*big.Int{}, p.Cs...)
 	contributions = s.mCorrect.CommitmentsFromProof(g, contributions, challenge, &bases, (*proof)(p))
 	for i := range s.cRep {
 		contributions = s.cRep[i].CommitmentsFromProof(g, contributions, challenge, &bases, (*proof)(p))
